@@ -88,6 +88,7 @@ ConvClause(m, ev) ==
      ELSE IF ev.gw # w THEN "get_week_date"
      ELSE IF Len(ev.sf) > 0 /\ SubSeq(ev.sf, 1, 4) # <<c[1], c[2], c[3], o[2]>> THEN "formatted-civil-date-disagrees"
      ELSE IF Len(ev.sf) = 6 /\ SubSeq(ev.sf, 5, 6) # <<w[1], w[2]>> THEN "formatted-week-disagrees"
+     ELSE IF Len(ev.fb) = 4 /\ ev.fb # <<Weekday(n), c[3], c[2], c[1]>> THEN "ext:fallback-strftime-civil-date"
      ELSE "ok"
 
 \* C01 / C05: p + d (how = "add": p + d, "radd": d + p, "sub": p - (-d) i.e. the logged d is the negated operand)
